@@ -3,7 +3,7 @@
    SD/ModelProofs.v. *)
 From Coq Require Import List Arith Bool QArith Qcanon Ring.
 From PTN Require SGE.Model.
-From PTN Require Import Tree.RTree SD.Model SD.ModelProofs SD.Core SD.CoreProofs.
+From PTN Require Import Tree.RTree SD.Model SD.ModelProofs SD.Core SD.CoreProofs SD.Pipeline SD.PipelineProofs.
 Import ListNotations.
 Local Close Scope Qc_scope.
 Local Close Scope Q_scope.
@@ -242,3 +242,56 @@ Example C01_example_shape :
   = Some [(0, None, [2; 1], [2; 2; 2; 2]); (2, Some 0, [3], [2; 2; 1; 1]); (3, Some 2, [], [2; 2; 2]); (1, Some 0, [], [2; 2; 2])].
 Proof. vm_compute. reflexivity. Qed.
 Print Assumptions C01_example_shape.
+
+(* ---- the pipeline model (SD/Pipeline.v: the BIPARTITE driver of state_diagram.py) ----------- *)
+(* One cut_and_optimise call of the BIPARTITE method -- V classes by v_hash incl. the re-hash
+   branch, Gamma with overwriting assignments, the bipartite graph of its non-zero entries, the
+   verified minimum vertex cover, reconnection rows first with copies for every second use --
+   preserves the denotation of the diagram, for every tree, every tree edge (parent(c), c) and
+   every input diagram satisfying the decidable precondition `cut_pre`: one vertex per leg on the
+   hyperedges of the two nodes, no coefficient on the hyperedges of the child node (the code ignores
+   and overwrites it), and no two hyperedges of one V class on the same vertex of the cut edge (the
+   code's second assignment to Gamma[u][class] would overwrite the first: C01-duplicate-terms). *)
+Theorem C01_cut_step_sound : forall (t : rtree) (c : nat) (st st' : pst), NoDup (ids t) ->
+  cut_pre t c (p_sd st) = true -> cut_step t c st = Some st' ->
+  forall k : key, (coef (sd_denote t (p_sd st')) k == coef (sd_denote t (p_sd st)) k)%Q.
+Proof. exact cut_step_sound. Qed.
+Print Assumptions C01_cut_step_sound.
+
+(* One combine_subtrees call (grouping by subtree hash, Core.merge for every later hyperedge with a
+   hash seen before) preserves the denotation when every merge it performs satisfies the decidable
+   form of the preconditions of C01_merge_equal_subtrees_sound (`combine_pre`). *)
+Theorem C01_combine_step_sound : forall (t : rtree) (c : nat) (st : pst), NoDup (ids t) ->
+  combine_pre t c st = true ->
+  forall k : key, (coef (sd_denote t (p_sd (combine_subtrees t c st))) k == coef (sd_denote t (p_sd st)) k)%Q.
+Proof. exact combine_subtrees_sound. Qed.
+Print Assumptions C01_combine_step_sound.
+
+(* The driver (compound diagram, BFS levels, per level all combine_subtrees then all
+   cut_and_optimise): whenever the step preconditions hold before every step of the run
+   (`pipeline_ok`, decidable, evaluated per instance by the harness) the diagram BIPARTITE
+   from_hamiltonian returns denotes the Hamiltonian.
+   PARTIAL with respect to the universal statement "for all term lists with pairwise distinct terms":
+   missing is the proof that distinct terms imply `pipeline_ok` (the invariant of the BFS run). *)
+Theorem C01_pipeline_exact_checked_partial : forall (t : rtree) (H : list pterm) (d : sd), NoDup (ids t) ->
+  pipeline_ok t H = true -> from_hamiltonian_bipartite t H = Some d ->
+  forall k : key, (coef (sd_denote t d) k == coef (ham_denote t H) k)%Q.
+Proof. exact pipeline_exact_checked. Qed.
+Print Assumptions C01_pipeline_exact_checked_partial.
+
+(* non-vacuity: 4 nodes, 6 terms; the cuts merge V classes, use row and column vertices of the cover
+   and copies; the run satisfies the step preconditions, the result is well-formed, certified, and
+   smaller than the BASE diagram (bond dimensions 4, 2, 3 instead of 6, 6, 6) *)
+Example C01_example_pipeline :
+  let t := RNode 0 [RNode 1 [RNode 2 []]; RNode 3 []] in
+  let f := fun (l : list (nat * nat)) (v : nat) => match lookup v l with Some x => x | None => 2 end in
+  let H := [((2 # 1)%Q, 0, f [(0, 10); (1, 11)]); ((3 # 1)%Q, 1, f [(0, 10); (1, 12)]); (1%Q, 0, f [(2, 13); (3, 14)]);
+            (1%Q, 0, f [(2, 13); (3, 15)]); ((1 # 2)%Q, 0, f [(0, 10); (3, 14)]); ((-1 # 1)%Q, 2, f [(1, 11); (2, 13); (3, 15)])] in
+  (pipeline_ok t H,
+   match from_hamiltonian_bipartite t H with
+   | Some d => Some (sd_wf t d, sd_check t H d, map (nverts_on d) [1; 2; 3], map (nverts_on (sd_base t H)) [1; 2; 3])
+   | None => None
+   end)
+  = (true, Some (true, true, [4; 2; 3], [6; 6; 6])).
+Proof. vm_compute. reflexivity. Qed.
+Print Assumptions C01_example_pipeline.
